@@ -119,6 +119,11 @@ def run_import(vec):
         calls = ["from_df", "set_values_from_df"]
         if vec["style"]["csv"]:
             calls.append("csv_reader")
+        # (a row whose cells are all empty does not survive an Excel file: not offered to the Excel path)
+        all_blank_row = any(all(c == BLANK for c in r["cells"]) for r in vec["rows"]) and \
+            not [l for l in vec["ds"] if l != vec["wide"] and l not in vec["dropped"] and not (vec["style"]["omit"] and len(DIMOBJ[l].items) == 1)]
+        if vec["styleid"] in (1, 3) and len(vec["rows"]) <= 8 and not all_blank_row:
+            calls.append("excel_reader")
         for call in calls:
             snapshot = df.copy(deep=True)
             tag = desc + f"{call}(allow_missing={missing}, allow_extra={extra}): "
@@ -132,6 +137,12 @@ def run_import(vec):
                     target = FlodymArray(dims=dims, values=np.full(tuple(d.len for d in dims), -5.0))
                     target.set_values_from_df(df, allow_missing_values=missing, allow_extra_values=extra)
                     got = target.values
+                elif call == "excel_reader":
+                    tmp = tmp or tempfile.mkdtemp(prefix="flodym-verif-tab-")
+                    path = os.path.join(tmp, "p.xlsx")
+                    df.to_excel(path, index=any(n is not None for n in df.index.names))
+                    reader = flodym.ExcelParameterReader(parameter_files={"p": path}, allow_missing_values=missing, allow_extra_values=extra)
+                    got = reader.read_parameter_values("p", dims).values
                 else:
                     tmp = tmp or tempfile.mkdtemp(prefix="flodym-verif-tab-")
                     path = os.path.join(tmp, "p.csv")
